@@ -104,7 +104,12 @@ func cmdCheck(args []string) {
 	os.RemoveAll(replayDir)
 	os.MkdirAll(replayDir, 0o755)
 	violations := 0
+	reported := map[string]bool{}
 	report := func(name string, payload map[string]any, noInput bool) {
+		if reported[name] {
+			return
+		}
+		reported[name] = true
 		violations++
 		payload["property"] = *prop
 		payload["obligation"] = name
@@ -181,6 +186,13 @@ func cmdCheck(args []string) {
 	if *tier == "thorough" {
 		timeout = 60
 		all = true
+	}
+	for _, ob := range obls {
+		for _, k := range known {
+			if k.Property == *prop && k.Obligation == ob.Name {
+				ob.Short = *tier != "thorough"
+			}
+		}
 	}
 	runObligations(obls, timeout, all, "", 16)
 	sort.SliceStable(obls, func(i, j int) bool { return obls[i].Name < obls[j].Name })
